@@ -382,7 +382,8 @@ void vf::run_case(Src &s, Ctx &c)
             if (image(out.getState(i)) == imgs[j])
                 ++j;
         VCHECK(c, j == n0, "C17/densify-lost-vertex" + rkey, "%s: only %zu of the %zu original vertices are still present in order", rn[routine], j, n0);
-        VCHECK(c, std::fabs(len1 - len0) <= 1e-9 * (1 + len0) + (P->ps.kind == SP_SE3 ? 1e-3 : 0), "C17/densify-length" + rkey, "%s changed the path length %.12g -> %.12g",
+        // SO(3) distances are quantised at 4.5e-5 (DESIGN section 3): one grain per output segment
+        VCHECK(c, std::fabs(len1 - len0) <= 1e-9 * (1 + len0) + (P->ps.kind == SP_SE3 ? 1e-4 * (double)n1 : 0), "C17/densify-length" + rkey, "%s changed the path length %.12g -> %.12g",
                rn[routine], len0, len1);
         if (routine == 10)
         {
